@@ -24,6 +24,13 @@ func init() {
 					L.Kust["namespace"] = L.NS
 				}
 			}
+			if r.Intn(5) == 0 {
+				// a custom schema (definitions only, for a custom kind) at the top or in a base: which kinds are cluster-scoped
+				// does not depend on it
+				L := t.Layers[r.Intn(len(t.Layers))]
+				L.Files["schema.yaml"] = customSchemaYAML
+				L.Kust["openapi"] = Obj{"path": "schema.yaml"}
+			}
 			// optionally plant a collision: a twin of an existing namespaced resource in another namespace,
 			// loaded by the same layer; any namespace directive on its chain must then make the build FAIL
 			collide := false
